@@ -788,6 +788,31 @@ def translate(repo):
     info["dispatch"] = {"functions": len(disp_funcs), "rows": len(arows), "unparsed": a_unparsed, "macro_uses": kinds,
                         "excused": {k: v for k, v in EXCUSED_OTHER.items()}}
 
+    # ---- selector arms: inside a dispatcher block for parent label P, `strcmp(<parameter>, "L") == 0` choosing the
+    # single child that ADDRESS4SINGLE(T, field, ...) addresses (cgi_model_address, cgi_particle_model_address ...): the
+    # child labelled L under P must be the one the goto table pushes for (P, L)
+    sel_rows = []
+    for fname_src, toks, funs in (("cgns_internals.c", t_int, f_int), ("cgnslib.c", t_lib, f_lib)):
+        for fn, fb in sorted(funs.items(), key=lambda kv: kv[1][0]):
+            if fn == "cgi_next_posit":
+                continue
+            txt = " ".join(toks[k][1] for k in range(fb[0], fb[1] + 1))
+            if "posit -> label" not in txt:
+                continue
+            parents = [(m.start(), m.group(1)) for m in re.finditer(r'strcmp \( posit -> label , "(\w+)" \) == 0', txt)]
+            for m in re.finditer(r'strcmp \( (\w+) , "(\w+_t)" \) == 0 \) \{ ([^{}]*?)\}', txt):
+                if m.group(1) == "posit":
+                    continue
+                body = m.group(3)
+                mm = re.search(r'ADDRESS4SINGLE(?:_ALLOC)? \( (\w+) , (\w+) ,', body)
+                if not mm:
+                    continue
+                par = [p for pos, p in parents if pos < m.start()]
+                if not par:
+                    continue
+                sel_rows.append((fn, par[-1], m.group(2), mm.group(2)))
+    info["selector_rows"] = len(sel_rows)
+
     # ---- shapes
     shapes = []
     missing = []
@@ -820,9 +845,11 @@ def translate(repo):
             "Definition structs : list (string * list (string * ftype)) := [\n%s\n].\n\n"
             "Definition addr_table : list arow := [\n%s\n].\n\n"
             "Definition shapes : list (string * string) := [\n%s\n].\n\n"
+            "Definition sel_table : list (string * string * string * string) := [\n%s\n].\n\n"
             "Definition max_goto_depth : Z := %d.\nDefinition code_ok : Z := %d.\nDefinition code_error : Z := %d.\n"
             "Definition code_not_found : Z := %d.\nDefinition code_incorrect_path : Z := %d.\n"
             % (";\n".join(gl), cbool(tail_ok), ";\n".join(sl), ";\n".join(al), ";\n".join(shapes),
+               ";\n".join("  (%s, %s, %s, %s)" % (cs(a), cs(b), cs(c), cs(d)) for a, b, c, d in sel_rows),
                consts["CG_MAX_GOTO_DEPTH"], consts["CG_OK"], consts["CG_ERROR"], consts["CG_NODE_NOT_FOUND"],
                consts["CG_INCORRECT_PATH"]))
     model = {"blocks": blocks, "structs": structs, "arows": arows, "enums": {k: enums[k] for k in ("Dirichlet", "Neumann") if k in enums}}
